@@ -148,11 +148,30 @@ func genReadersCase(thorough bool, r *R, seed uint64, index int64) *Case {
 		maxReaders = 6
 	}
 	n := r.Range(2, maxReaders)
+	// swarm: each case focuses on 1-3 methods (with all their argument variants), so that the same getter — or one
+	// particular pair of getters — is frequently inside several readers at once; the rest is drawn from everything
+	byMethod := map[string][]Call{}
+	var methodNames []string
+	for _, cl := range calls {
+		if _, ok := byMethod[cl.M]; !ok {
+			methodNames = append(methodNames, cl.M)
+		}
+		byMethod[cl.M] = append(byMethod[cl.M], cl)
+	}
+	var focus []Call
+	for i := 0; i < r.Range(1, 3); i++ {
+		focus = append(focus, byMethod[methodNames[r.Intn(len(methodNames))]]...)
+	}
+	focusPct := []int{0, 50, 80}[r.Intn(3)]
 	for i := 0; i < n; i++ {
 		var prog []Call
 		k := r.Range(3, 12)
 		for j := 0; j < k; j++ {
-			prog = append(prog, calls[r.Intn(len(calls))])
+			if r.P(focusPct) {
+				prog = append(prog, focus[r.Intn(len(focus))])
+			} else {
+				prog = append(prog, calls[r.Intn(len(calls))])
+			}
 		}
 		c.Readers = append(c.Readers, prog)
 	}
